@@ -57,22 +57,21 @@ ZeroLow(x, k) == Mat([i \in 1..L |-> IF i > L-k THEN 0   ELSE x[i]])   \* (x >> 
 
 (* x + B^k with Go's wrap-around: the carry runs through the digits above  *)
 (* level k and is lost beyond the word.  k = L is `int64(1) << 64 = 0'.     *)
+RECURSIVE LastNot(_, _, _)      \* largest j <= i with x[j] # d, 0 if there is none
+LastNot(x, i, d) == IF i = 0 THEN 0 ELSE IF x[i] # d THEN i ELSE LastNot(x, i-1, d)
+
 AddAt(x, k) ==
-  LET i  == L - k
-      nc == {j \in 1..i : x[j] # B-1}
-  IN IF nc = {} THEN Mat([n \in 1..L |-> IF n <= i THEN 0 ELSE x[n]])
-     ELSE LET j == MaxOf(nc)
-          IN Mat([n \in 1..L |-> IF n = j THEN x[n] + 1
-                                 ELSE IF n > j /\ n <= i THEN 0 ELSE x[n]])
+  LET i == L - k
+      j == LastNot(x, i, B-1)          \* where the carry stops (0: it leaves the word)
+  IN Mat([n \in 1..L |-> IF n = j THEN x[n] + 1
+                         ELSE IF n > j /\ n <= i THEN 0 ELSE x[n]])
 
 (* x - B^k with borrow and wrap-around.                                    *)
 SubAt(x, k) ==
-  LET i  == L - k
-      nb == {j \in 1..i : x[j] # 0}
-  IN IF nb = {} THEN Mat([n \in 1..L |-> IF n <= i THEN B-1 ELSE x[n]])
-     ELSE LET j == MaxOf(nb)
-          IN Mat([n \in 1..L |-> IF n = j THEN x[n] - 1
-                                 ELSE IF n > j /\ n <= i THEN B-1 ELSE x[n]])
+  LET i == L - k
+      j == LastNot(x, i, 0)            \* where the borrow stops
+  IN Mat([n \in 1..L |-> IF n = j THEN x[n] - 1
+                         ELSE IF n > j /\ n <= i THEN B-1 ELSE x[n]])
 
 Succ(x) == AddAt(x, 0)
 Pred(x) == SubAt(x, 0)
@@ -80,22 +79,31 @@ Pred(x) == SubAt(x, 0)
 -----------------------------------------------------------------------------
 (* Orders.                                                                 *)
 
-\* unsigned lexicographic order of two equally long digit/bit sequences
-LexLess(a, b) == \E i \in DOMAIN a : a[i] < b[i] /\ \A j \in 1..(i-1) : a[j] = b[j]
+\* unsigned lexicographic order of two equally long digit/bit sequences:
+\* decided at the first position where they differ
+RECURSIVE LexLessFrom(_, _, _, _)
+LexLessFrom(a, b, i, n) ==
+  IF i > n THEN FALSE ELSE IF a[i] = b[i] THEN LexLessFrom(a, b, i+1, n) ELSE a[i] < b[i]
+LexLess(a, b) == LexLessFrom(a, b, 1, Len(a))
 
 \* x XOR signbit (the "sortableBits" of prefix_coded.go): signed order of x
 \* is the unsigned order of Bias(x)
 Bias(x) == [x EXCEPT ![1] = (x[1] + (B \div 2)) % B]
 
-SLess(a, b) == LexLess(Bias(a), Bias(b))      \* Go:  a < b   on int64
+Bias1(d) == (d + (B \div 2)) % B
+SLess(a, b) ==                                \* Go:  a < b   on int64
+  IF a[1] # b[1] THEN Bias1(a[1]) < Bias1(b[1]) ELSE LexLessFrom(a, b, 2, L)
 SLeq(a, b)  == ~SLess(b, a)
 MaxVal == Mat([i \in 1..L |-> IF i = 1 THEN (B \div 2) - 1 ELSE B-1])  \* math.MaxInt64
 MinVal == Mat([i \in 1..L |-> IF i = 1 THEN B \div 2 ELSE 0])          \* math.MinInt64
 
 \* bytes.Compare(a, b) < 0 on terms (possibly of different length)
-BytesLess(a, b) ==
-  \/ \E i \in 1..MinI(Len(a), Len(b)) : a[i] < b[i] /\ \A j \in 1..(i-1) : a[j] = b[j]
-  \/ Len(a) < Len(b) /\ \A j \in 1..Len(a) : a[j] = b[j]
+RECURSIVE BytesLessFrom(_, _, _)
+BytesLessFrom(a, b, i) ==
+  IF i > Len(a) THEN i <= Len(b)            \* a is a proper prefix of b (or equal)
+  ELSE IF i > Len(b) THEN FALSE
+  ELSE IF a[i] = b[i] THEN BytesLessFrom(a, b, i+1) ELSE a[i] < b[i]
+BytesLess(a, b) == BytesLessFrom(a, b, 1)
 BytesLeq(a, b) == ~BytesLess(b, a)
 
 -----------------------------------------------------------------------------
@@ -193,6 +201,47 @@ DecodeTerm(t) ==
                               ELSE 0]
   IN Bias(FromBits(u))
 
+(* The same two functions for digit-aligned shifts (s = k*DB) by integer    *)
+(* arithmetic on chunks of lcm(DB, G) bits = CD digits = CG groups (code: 28 *)
+(* bits = 7 nibbles = 4 term bytes).  Pure evaluation speed-up for the judge *)
+(* at full width; NumericMC checks them equal to the bit-level definitions   *)
+(* for every word and level.                                                 *)
+ChunkBits == CHOOSE m \in 1..30 : /\ m % DB = 0 /\ m % G = 0
+                                   /\ \A q \in 1..(m-1) : ~(q % DB = 0 /\ q % G = 0)
+CD == ChunkBits \div DB
+CG == ChunkBits \div G
+
+RECURSIVE DigitChunk(_, _, _, _)   \* value of kept digits nd-(c*CD).. (CD of them), c counted from the right
+DigitChunk(u, nd, c, t) ==
+  IF t = CD THEN 0
+  ELSE (LET i == nd - (c * CD + t) IN IF i >= 1 THEN u[i] ELSE 0) + B * DigitChunk(u, nd, c, t + 1)
+
+PrefixCodeD(x, k) ==
+  LET u   == Bias(x)
+      nd  == L - k
+      n   == NChars(k * DB)
+      nch == ((n - 1) \div CG) + 1
+      cv  == Mat([c \in 1..nch |-> DigitChunk(u, nd, c - 1, 0)])
+  IN <<ShiftStart + k * DB>> \o
+     [j \in 1..n |-> LET r == n - j IN (cv[(r \div CG) + 1] \div (2 ^ (G * (r % CG)))) % (2 ^ G)]
+
+RECURSIVE GroupChunk(_, _, _, _)   \* value of groups (from the right) c*CG.. (CG of them)
+GroupChunk(t, n, c, p) ==
+  IF p = CG THEN 0
+  ELSE (LET r == c * CG + p IN IF r < n THEN t[Len(t) - r] ELSE 0) + (2 ^ G) * GroupChunk(t, n, c, p + 1)
+
+DecodeTermD(t) ==
+  LET k   == TermShift(t) \div DB
+      n   == Len(t) - 1
+      nd  == L - k
+      nch == ((n - 1) \div CG) + 1
+      cv  == Mat([c \in 1..nch |-> GroupChunk(t, n, c - 1, 0)])
+      dg(i) == IF i > nd THEN 0
+               ELSE LET r == nd - i
+                    IN IF (r \div CD) + 1 > nch THEN 0
+                       ELSE (cv[(r \div CD) + 1] \div (B ^ (r % CD))) % B
+  IN Bias(Mat([i \in 1..L |-> dg(i)]))
+
 \* the terms document/field_numeric.go Analyze indexes for one value
 IndexedTerms(x) == {PrefixCode(x, k * DB) : k \in Levels}
 
@@ -203,8 +252,8 @@ IndexedTerms(x) == {PrefixCode(x, k * DB) : k \in Levels}
 (* bounds prefix coded at that shift.  A range is kept as (level, lo, hi)   *)
 (* with full-width lo/hi; its terms are RngStart/RngEnd.                    *)
 Rng(lo, hi, k) == [k |-> k, lo |-> lo, hi |-> FillLow(hi, k)]
-RngStart(r) == PrefixCode(r.lo, r.k * DB)
-RngEnd(r)   == PrefixCode(r.hi, r.k * DB)
+RngStart(r) == PrefixCodeD(r.lo, r.k)
+RngEnd(r)   == PrefixCodeD(r.hi, r.k)
 
 (* One iteration of the `for shift := 0; ; shift += precisionStep' loop at *)
 (* level k = shift/precisionStep with the current bounds (mn, mx):         *)
@@ -278,28 +327,29 @@ RngEnumWithin(r, limit) == EnumWithin(RngStart(r), RngEnd(r), limit)
 (* The meaning: interval cover, decidable by interval arithmetic on digit  *)
 (* sequences at any width.                                                 *)
 
-RECURSIVE SortByLo(_)
-SortByLo(S) ==
-  IF S = {} THEN <<>>
-  ELSE LET r == CHOOSE q \in S : \A p \in S : SLeq(q.lo, p.lo)
-       IN <<r>> \o SortByLo(S \ {r})
-
 SeqToSet(s) == {s[i] : i \in 1..Len(s)}
 
+(* Walk from cur: exactly one range starts at cur; it either ends at mx and *)
+(* is the last one, or the walk continues right after its end.             *)
+RECURSIVE Walk(_, _, _)
+Walk(S, cur, mx) ==
+  LET c == {r \in S : r.lo = cur}
+  IN /\ Cardinality(c) = 1
+     /\ LET r == CHOOSE q \in c : TRUE
+        IN IF r.hi = mx THEN S = {r}
+           ELSE r.hi # MaxVal /\ Walk(S \ {r}, Succ(r.hi), mx)
+
 (* ranges (records with k, lo, hi) are pairwise disjoint and their union   *)
-(* is exactly the integer interval [mn, mx] (empty iff mn > mx)            *)
+(* is exactly the integer interval [mn, mx] (empty iff mn > mx): every     *)
+(* range is a non-empty aligned block, no range occurs twice, and the      *)
+(* ranges can be lined up from mn to mx without gap or overlap.            *)
 ChainCover(ranges, mn, mx) ==
   LET S == SeqToSet(ranges)
-      s == SortByLo(S)
-      n == Len(s)
   IN IF SLess(mx, mn) THEN ranges = <<>>
-     ELSE /\ n >= 1
-          /\ Cardinality(S) = Len(ranges)                        \* none twice
-          /\ \A i \in 1..n : /\ s[i].lo = ZeroLow(s[i].lo, s[i].k)
-                             /\ s[i].hi = FillLow(s[i].hi, s[i].k)
-                             /\ SLeq(s[i].lo, s[i].hi)
-          /\ s[1].lo = mn
-          /\ s[n].hi = mx
-          /\ \A i \in 1..(n-1) : s[i].hi # MaxVal /\ Succ(s[i].hi) = s[i+1].lo
+     ELSE /\ Cardinality(S) = Len(ranges)                        \* none twice
+          /\ \A r \in S : /\ r.lo = ZeroLow(r.lo, r.k)
+                           /\ r.hi = FillLow(r.hi, r.k)
+                           /\ SLeq(r.lo, r.hi)
+          /\ Walk(S, mn, mx)
 
 =============================================================================
